@@ -335,7 +335,11 @@ class SRec(SV):
         self.fields = dict(fields)
         self.ty = TClass(ci.name)
 
+    _v = None  # the Val term this record was unpacked from (equal to the rebuilt term under its type guard)
+
     def val(self):
+        if self._v is not None:
+            return self._v
         return Val.rec(z3.IntVal(self.ci.id), vl_of(self.fields[f].val() for f in self.ci.fields))
 
     def __repr__(self):
@@ -446,7 +450,9 @@ def from_val(t: z3.ExprRef, ty: Ty, reg: Registry) -> SV:
             for f, fty in ci.fields.items():
                 fields[f] = from_val(VL.hd(cur), fty, reg)
                 cur = VL.tl(cur)
-            return SRec(ci, fields)
+            r = SRec(ci, fields)
+            r._v = t
+            return r
         if ci.kind == "enum":
             return SEnum(ci, Val.eidx(t))
         if ci.kind in ("object", "external"):
@@ -455,9 +461,17 @@ def from_val(t: z3.ExprRef, ty: Ty, reg: Registry) -> SV:
     return SAny(t, ty)
 
 
-def type_constraint(t: z3.ExprRef, ty: Ty, reg: Registry, depth=0):
-    """the well-formedness predicate of a Val term of static type ty (used as an assumption on inputs)"""
+def type_constraint(t: z3.ExprRef, ty: Ty, reg: Registry, depth=0, shallow=False):
+    """the well-formedness predicate of a Val term of static type ty (used as an assumption on inputs).
+    shallow: for unions of record classes only the class tags are constrained (field shapes are constrained lazily when an
+    alternative is selected by narrowing)"""
     k = ty.kind
+    if shallow and k == "union":
+        return z3.Or(*[type_constraint(t, a, reg, depth + 1, True) for a in ty.alts])
+    if shallow and k == "class":
+        ci = reg.get(ty.name)
+        if ci is not None and ci.kind == "record":
+            return z3.And(Val.is_rec(t), Val.rcls(t) == ci.id)
     if k == "int":
         return Val.is_int(t)
     if k == "bool":
